@@ -138,6 +138,30 @@ func (c *SpecCtx) resolveLocal(name string) (Val, bool) {
 				}
 			}
 		}
+		if best == nil {
+			// a phi named after the variable in the nearest dominating block (e.g. the hidden range index of an outer loop)
+			var bp *ssa.Phi
+			for _, b := range fr.fn.Blocks {
+				if b == c.at || !b.Dominates(c.at) {
+					continue
+				}
+				for _, in := range b.Instrs {
+					phi, ok := in.(*ssa.Phi)
+					if !ok {
+						break
+					}
+					if phi.Comment == name && (bp == nil || bp.Block().Dominates(b)) {
+						bp = phi
+					}
+				}
+			}
+			if bp != nil {
+				if v, ok := c.override[bp]; ok {
+					return v, true
+				}
+				return fr.val(bp), true
+			}
+		}
 	}
 	if best != nil {
 		if v, ok := c.override[best.val]; ok {
